@@ -809,8 +809,8 @@ def check_rehash_model(ctx, prog):
             continue
         kt = T(bo, bo['params'][0]['t'])
         kt = T(bo, kt.get('to')) if kt.get('ref') else kt
-        if not kt.get('int'):
-            continue
+        if (kt.get('s') or '').replace('const ', '') != 'int':
+            continue                # driven on the int-keyed instantiations: hash(int) is the identity, other keys hash their bytes
         n += 1
         ctx.analysed(f)
         role = 'rehash:every entry is found in the grown table'
